@@ -1138,3 +1138,186 @@ twin('C15-twin-pad-constant-inline', 'C15',
        "            (n_cells, n_levels, n_runners_up), dtype=int)\n",
        "        r_assignments = np.full(\n"
        "            (n_cells, n_levels, n_runners_up), -1, dtype=int)\n")])
+
+
+# ----------------------------------------------------------------------
+# C09
+# ----------------------------------------------------------------------
+mutant('C09-sum-is-mean', 'C09', "'sum' computed as a mean",
+       [(P+'utils/stats_utils.py',
+         "    result['sum'] = data.sum(axis=0)\n",
+         "    result['sum'] = data.mean(axis=0)\n")],
+       'R-AXIS/additive-statistic', 'sum')
+mutant('C09-sumsq-square-of-sum', 'C09',
+       "'sumsq' computed as the square of the sum",
+       [(P+'utils/stats_utils.py',
+         "    result['sumsq'] = (data**2).sum(axis=0)\n",
+         "    result['sumsq'] = data.sum(axis=0)**2\n")],
+       'R-AXIS/additive-statistic', 'sumsq')
+mutant('C09-gt0-wrong-axis', 'C09', "'gt0' counted along the gene axis",
+       [(P+'utils/stats_utils.py',
+         "    result['gt0'] = (data > zero_cutoff).sum(axis=0)\n",
+         "    result['gt0'] = (data > zero_cutoff).sum(axis=1)\n")],
+       'R-AXIS/additive-statistic', 'gt0')
+mutant('C09-merge-skips-ge1', 'C09',
+       "the buffer merge skips 'ge1'",
+       [(P+'diff_exp/precompute_from_anndata.py',
+         "            for k in src.keys():\n"
+         "                if k == 'n_cells':\n"
+         "                    final_output[k][:] += src[k][()]\n",
+         "            for k in src.keys():\n"
+         "                if k == 'ge1':\n"
+         "                    continue\n"
+         "                if k == 'n_cells':\n"
+         "                    final_output[k][:] += src[k][()]\n")],
+       'R-MUST/merge-covers-every-key')
+mutant('C09-chunk-accumulate-overwrites', 'C09',
+       'per-chunk statistics overwrite instead of accumulate',
+       [(P+'diff_exp/precompute_from_anndata.py',
+         "                buffer_dict[k][unq_cluster, :] += summary_chunk[k]"
+         "\n",
+         "                buffer_dict[k][unq_cluster, :] = summary_chunk[k]"
+         "\n")],
+       'R-MUST/merge-covers-every-key')
+mutant('C09-buffer-missing-key', 'C09',
+       "the worker buffer has no 'gt1' array",
+       [(P+'diff_exp/precompute_from_anndata.py',
+         "    buffer_dict['gt1'] = np.zeros((n_clusters, n_genes), "
+         "dtype=int)\n", "")],
+       'R-SCHEMA/stats-key-table', 'gt1')
+mutant('C09-empty-file-missing-key', 'C09',
+       "the output file is created without 'sumsq'",
+       [(P+'diff_exp/precompute.py',
+         "        for (k, dt) in (('sum', float), ('sumsq', float),\n",
+         "        for (k, dt) in (('sum', float),\n")],
+       'R-SCHEMA/stats-key-table', 'sumsq')
+mutant('C09-sentinel-zero', 'C09', 'the unknown-cell sentinel is row 0',
+       [(P+'diff_exp/precompute_from_anndata.py',
+         "    bad_row_idx = -999\n", "    bad_row_idx = 0\n")],
+       'R-GUARD/unknown-cells-skipped', 'value')
+mutant('C09-sentinel-not-skipped', 'C09',
+       'unknown cells are no longer skipped',
+       [(P+'diff_exp/precompute_from_anndata.py',
+         "        if unq_cluster == bad_row_idx:\n            continue\n",
+         "")],
+       'R-GUARD/unknown-cells-skipped')
+mutant('C09-cpm-chunk-total', 'C09',
+       'CPM normalisation divides by the total of the whole chunk',
+       [(P+'cell_by_gene/utils.py',
+         "    row_sums = np.sum(data, axis=1)\n",
+         "    row_sums = np.sum(data)\n")],
+       'R-AXIS/row-wise-normalisation')
+mutant('C09-taxonomy-first', 'C09',
+       'the taxonomy dataset is written before the numeric data',
+       [(P+'diff_exp/precompute_from_anndata.py',
+         "    precompute_summary_stats_from_h5ad_and_lookup(\n"
+         "        data_path_list=[data_path],",
+         "    with h5py.File(output_path, 'a') as out_file:\n"
+         "        out_file.create_dataset(\n"
+         "            'taxonomy_tree',\n"
+         "            data=taxonomy_tree.to_str().encode('utf-8'))\n"
+         "    precompute_summary_stats_from_h5ad_and_lookup(\n"
+         "        data_path_list=[data_path],")],
+       'R-MUST/taxonomy-written-last')
+mutant('C09-reader-renamed-key', 'C09',
+       "the reader asks for 'n_cell'",
+       [(P+'diff_exp/score_utils.py',
+         "        all_keys = set(['n_cells', 'sum', 'sumsq', 'gt0', 'gt1', "
+         "'ge1'])\n",
+         "        all_keys = set(['n_cell', 'sum', 'sumsq', 'gt0', 'gt1', "
+         "'ge1'])\n")],
+       'R-SCHEMA/stats-readers')
+
+twin('C09-twin-np-sum', 'C09', 'statistic written with np.sum(E, axis=0)',
+     [(P+'utils/stats_utils.py',
+       "    result['sum'] = data.sum(axis=0)\n",
+       "    result['sum'] = np.sum(data, axis=0)\n")])
+twin('C09-twin-square-fn', 'C09', 'squares written with np.square',
+     [(P+'utils/stats_utils.py',
+       "    result['sumsq'] = (data**2).sum(axis=0)\n",
+       "    result['sumsq'] = (data*data).sum(axis=0)\n")])
+twin('C09-twin-merge-one-arm', 'C09',
+     'merge loop written with a single arm',
+     [(P+'diff_exp/precompute_from_anndata.py',
+       "                if k == 'n_cells':\n"
+       "                    final_output[k][:] += src[k][()]\n"
+       "                else:\n"
+       "                    final_output[k][:, :] += src[k][()]\n",
+       "                final_output[k][...] += src[k][()]\n")])
+
+
+# ----------------------------------------------------------------------
+# C18
+# ----------------------------------------------------------------------
+mutant('C18-stats-writer-renames-col-names', 'C18',
+       "the statistics stage writes 'gene_names' instead of 'col_names'",
+       [(P+'diff_exp/precompute.py',
+         "                'col_names',\n", "                'gene_names',\n")],
+       'R-SCHEMA/stage-boundary', 'col_names')
+mutant('C18-marker-file-renames-group', 'C18',
+       "the by-gene marker group is written as 'by_gene'",
+       [(P+'diff_exp/markers.py',
+         "        dst.create_group('sparse_by_gene')\n",
+         "        dst.create_group('by_gene')\n"),
+        (P+'diff_exp/markers.py',
+         "                grp = dst['sparse_by_gene']\n",
+         "                grp = dst['by_gene']\n")],
+       'R-SCHEMA/stage-boundary', 'sparse_by_gene')
+mutant('C18-cache-writer-renames', 'C18',
+       "the marker cache stores 'query_genes' instead of "
+       "'query_gene_names'",
+       [(P+'type_assignment/marker_cache_v2.py',
+         "            \"query_gene_names\",\n",
+         "            \"query_genes\",\n")],
+       'R-SCHEMA/stage-boundary', 'query_gene_names')
+mutant('C18-mask-reader-needs-extra', 'C18',
+       'the p-value marker worker requires a dataset the mask stage never '
+       'writes',
+       [(P+'diff_exp/p_value_markers.py',
+         "        p_indptr = src['indptr'][()]\n",
+         "        p_indptr = src['indptr'][()]\n"
+         "        n_rows_mask = src['n_rows'][()]\n")],
+       'R-SCHEMA/stage-boundary', 'n_rows')
+mutant('C18-marker-genes-from-query', 'C18',
+       'the marker file records the query gene list as its gene names',
+       [(P+'diff_exp/markers.py',
+         "    idx_to_pair = _prep_output_file(\n"
+         "            output_path=tmp_output_path,\n"
+         "            taxonomy_tree=taxonomy_tree,\n"
+         "            gene_names=gene_names)\n",
+         "    idx_to_pair = _prep_output_file(\n"
+         "            output_path=tmp_output_path,\n"
+         "            taxonomy_tree=taxonomy_tree,\n"
+         "            gene_names=list(gene_list or gene_names))\n")],
+       'R-PROV/identified-by-name')
+mutant('C18-rows-by-position', 'C18',
+       'cluster rows are taken by enumeration order, not cluster_to_row',
+       [(P+'diff_exp/score_utils.py',
+         "    for leaf_name in row_lookup:\n"
+         "        idx = row_lookup[leaf_name]\n",
+         "    for idx, leaf_name in enumerate(row_lookup):\n")],
+       'R-PROV/identified-by-name')
+mutant('C18-lookup-extra-key', 'C18',
+       'the query-marker CLI adds a top-level key the mapper does not '
+       'strip',
+       [(P+'cli/query_markers.py',
+         "        marker_lookup['metadata'] = metadata\n",
+         "        marker_lookup['metadata'] = metadata\n"
+         "        marker_lookup['provenance'] = 'query_markers'\n")],
+       'R-SCHEMA/marker-lookup-extra-keys')
+
+twin('C18-twin-extra-dataset', 'C18',
+     'the statistics stage writes an additional dataset',
+     [(P+'diff_exp/precompute.py',
+       "        out_file.create_dataset('n_cells', shape=(n_clusters,), "
+       "dtype=int)\n",
+       "        out_file.create_dataset('n_cells', shape=(n_clusters,), "
+       "dtype=int)\n"
+       "        out_file.create_dataset('n_genes', data=n_genes)\n")])
+twin('C18-twin-optional-read', 'C18',
+     'a reader probes an optional dataset behind a membership test',
+     [(P+'type_assignment/marker_cache_v2.py',
+       "    with h5py.File(marker_cache_path, \"r\") as src:\n",
+       "    with h5py.File(marker_cache_path, \"r\") as src:\n"
+       "        if 'cache_version' in src:\n"
+       "            print(src['cache_version'][()])\n")])
